@@ -507,21 +507,27 @@ class VanillaSimulaQronExecutioner(Executor):
         self._handle_epr_response(response=ent_info)
         self._logger.debug("finished cmd_epr")
 
+    @staticmethod
+    def _get_request_rotations(request, side):
+        """The three rotation angles of a measure-directly request (field names differ between netqasm versions)"""
+        if hasattr(request, f"rotation_{side}_1"):
+            return [getattr(request, f"rotation_{side}_{i}") for i in (1, 2, 3)]
+        return [getattr(request, f"rotation_X_{side}1"), getattr(request, f"rotation_Y_{side}"),
+                getattr(request, f"rotation_X_{side}2")]
+
     @inlineCallbacks
     def _measure_epr_qubit(self, qubit_id, request, remote: bool):
         # Check the arguments depending on if this is the local or remote qubit
         if remote:
-            assert request.rotation_X_remote1 == 0, "Measure directly with rotations not yet supported"
-            assert request.rotation_Y_remote == 0, "Measure directly with rotations not yet supported"
-            assert request.rotation_X_remote2 == 0, "Measure directly with rotations not yet supported"
+            rotations = self._get_request_rotations(request, "remote")
+            assert all(r == 0 for r in rotations), "Measure directly with rotations not yet supported"
             random_basis = request.random_basis_remote
             probability_dist1 = request.probability_dist_remote1
             probability_dist2 = request.probability_dist_remote2
 
         else:
-            assert request.rotation_X_local1 == 0, "Measure directly with rotations not yet supported"
-            assert request.rotation_Y_local == 0, "Measure directly with rotations not yet supported"
-            assert request.rotation_X_local2 == 0, "Measure directly with rotations not yet supported"
+            rotations = self._get_request_rotations(request, "local")
+            assert all(r == 0 for r in rotations), "Measure directly with rotations not yet supported"
             random_basis = request.random_basis_local
             probability_dist1 = request.probability_dist_local1
             probability_dist2 = request.probability_dist_local2
